@@ -2830,14 +2830,15 @@ class Client:
             on_socket_open = self.on_socket_open
 
         if on_socket_open:
-            with self._in_callback_mutex:
-                try:
-                    on_socket_open(self, self._userdata, sock)
-                except Exception as err:
-                    self._easy_log(
-                        MQTT_LOG_ERR, 'Caught exception in on_socket_open: %s', err)
-                    if not self.suppress_exceptions:
-                        raise
+            # Like on_socket_register_write/unregister_write this runs without _in_callback_mutex:
+            # reconnect()/connect() may be called from inside another callback, which already holds it.
+            try:
+                on_socket_open(self, self._userdata, sock)
+            except Exception as err:
+                self._easy_log(
+                    MQTT_LOG_ERR, 'Caught exception in on_socket_open: %s', err)
+                if not self.suppress_exceptions:
+                    raise
 
     @property
     def on_socket_close(self) -> CallbackOnSocket | None:
@@ -2877,14 +2878,15 @@ class Client:
             on_socket_close = self.on_socket_close
 
         if on_socket_close:
-            with self._in_callback_mutex:
-                try:
-                    on_socket_close(self, self._userdata, sock)
-                except Exception as err:
-                    self._easy_log(
-                        MQTT_LOG_ERR, 'Caught exception in on_socket_close: %s', err)
-                    if not self.suppress_exceptions:
-                        raise
+            # Like on_socket_register_write/unregister_write this runs without _in_callback_mutex:
+            # reconnect()/connect() may be called from inside another callback, which already holds it.
+            try:
+                on_socket_close(self, self._userdata, sock)
+            except Exception as err:
+                self._easy_log(
+                    MQTT_LOG_ERR, 'Caught exception in on_socket_close: %s', err)
+                if not self.suppress_exceptions:
+                    raise
 
     @property
     def on_socket_register_write(self) -> CallbackOnSocket | None:
